@@ -516,6 +516,19 @@ def C07.amountGo (view : View) (want : Int) : Int → Nat → Journal → Bool
 
 def C07.amountHolds (c : Ctx) (want : Int) (j : Journal) : Bool := C07.amountGo c.view want c.g.asg.desired 0 j
 
+/-- Accepted `SetDesiredCapacity` requests that *lower* the desired size the cloud holds at that moment (its own
+    description at scan start, minus the terminations-with-decrement it accepted since): `(current, requested)`.
+    Escalator never shrinks a group this way — it names the instances it removes — because a lowered desired size makes
+    the cloud terminate instances of its own choosing. -/
+def loweringRequests (c : Ctx) (j : Journal) : List (Int × Int) :=
+  let rec go (cur : Int) : Journal → List (Int × Int)
+    | [] => []
+    | e :: es =>
+      (match e.call with
+       | .setDesired _ v => if e.ok && v < cur then [(cur, v)] else []
+       | _ => []) ++ go (if isOkDecTerminate e then cur - 1 else (match e.call with | .setDesired _ v => if e.ok then v else cur | _ => cur)) es
+  go c.g.asg.desired j
+
 /-- The other direction: a scan that decided it needs `want ≥ 1` more nodes (group unlocked, node count within bounds)
     brings exactly that many into service unless the bound or a refused/failed cloud request stops it: after `u`
     accepted untaints it must ask the cloud for `min(want − u, bound − current desired)` when that is positive. -/
